@@ -22,6 +22,7 @@ import numpy as np
 from fixtures import v4 as fv4
 
 from katdal.chunkstore_npy import NpyFileChunkStore   # noqa: E402
+from katdal.chunkstore_dict import DictChunkStore   # noqa: E402
 from katdal.datasources import TelstateDataSource, view_l0_capture_stream, _align_chunk_info   # noqa: E402
 from katdal.vis_flags_weights import ChunkStoreVisFlagsWeights   # noqa: E402
 
@@ -186,3 +187,189 @@ def observe(case, tmp):
 
 def rmtree(tmp):
     shutil.rmtree(tmp, ignore_errors=True)
+
+
+# ----------------------------------------------------------------------------- round 2: histories, raw indices
+#
+# A history case extends a case by
+#   absent0   {array: [[i, j(, k)], ...]}  chunks not written initially
+#   steps     [['del', array, idx] | ['put', array, idx, version] | ['load', index]]
+#   index     for path 'vfw': a list of encoded index elements; for path 'source': {'dumps': elt, 'channels': elt}
+#             elt = ['s', start, stop, step] (None allowed) | ['i', n] | ['o'] (a list index)
+# One READER store object serves every load; chunks are written and removed through a separate WRITER object /
+# the file system, as another process would.
+
+def dec_elt(e):
+    if e[0] == 's':
+        return slice(e[1], e[2], e[3])
+    if e[0] == 'i':
+        return int(e[1])
+    return [0]
+
+
+def chunk_file(store, prefix, name, sl):
+    return os.path.join(store.path, prefix, name, '_'.join('%05d' % s.start for s in sl) + '.npy')
+
+
+def version_values(case, ver):
+    return make_values(dict(case, seed=case.get('seed', 0) + 7919 * ver))
+
+
+class History:
+    def __init__(self, case, tmp):
+        self.case = case
+        self.writer = NpyFileChunkStore(tmp)
+        self.reader = NpyFileChunkStore(tmp)
+        self.vals = {}
+        self.info = {}
+        self.ops = []           # what the model is told: [1, array number, chunk id, version] / [0, array number, chunk id]
+        l0, l1 = 'cb-sdp-l0', 'cb-sdp-l1-flags'
+        v0 = self.values(0)
+        for a, name in enumerate(ARRAYS):
+            prefix = l1 if (name == 'flags' and case.get('l1')) else l0
+            chunks = tuple(tuple(int(x) for x in c) for c in case['chunks'][name])
+            self.writer.create_array(self.writer.join(prefix, name))
+            self.info[name] = {'prefix': prefix, 'chunks': chunks,
+                               'dtype': np.lib.format.dtype_to_descr(np.dtype(DTYPES[name])),
+                               'shape': tuple(int(s) for s in v0[name].shape)}
+            absent = [tuple(i) for i in case.get('absent0', {}).get(name, [])]
+            for idx in all_chunk_indices(chunks):
+                if tuple(int(i) for i in idx) not in absent:
+                    self.put(name, idx, 0)
+        self.ts = None
+
+    def values(self, ver):
+        if ver not in self.vals:
+            self.vals[ver] = version_values(self.case, ver)
+        return self.vals[ver]
+
+    def ident(self, name, idx):
+        return [int(s.start) for s in chunk_slices(self.case['chunks'][name], idx)]
+
+    def put(self, name, idx, ver):
+        i = self.info[name]
+        sl = chunk_slices(i['chunks'], idx)
+        self.writer.put_chunk(self.writer.join(i['prefix'], name), sl, np.ascontiguousarray(self.values(ver)[name][sl]))
+        self.ops.append([1, ARRAYS.index(name), self.ident(name, idx), ver])
+
+    def delete(self, name, idx):
+        i = self.info[name]
+        fn = chunk_file(self.writer, i['prefix'], name, chunk_slices(i['chunks'], idx))
+        if os.path.exists(fn):
+            os.remove(fn)
+        self.ops.append([0, ARRAYS.index(name), self.ident(name, idx)])
+
+    def telstate(self):
+        case, info = self.case, self.info
+        ts = katsdptelstate.TelescopeState()
+        cbid, stream, l1name = 'cb', 'sdp_l0', 'sdp_l1_flags'
+        cs = ts.view(ts.join(cbid, stream))
+        sv = ts.view(stream)
+        l0_info = {k: dict(v) for k, v in info.items() if not (k == 'flags' and case.get('l1'))}
+        if case.get('l1'):
+            l0_info['flags'] = dict(info['weights'], dtype=info['flags']['dtype'])
+        cs['chunk_info'] = l0_info
+        cs['first_timestamp'] = 10.0
+        sv['sync_time'] = 1600000000.0
+        sv['int_time'] = 2.0
+        sv['bls_ordering'] = np.array([('m000h', 'm000h')] * case['B'])
+        sv['need_weights_power_scale'] = False
+        sv['stream_type'] = 'sdp.vis'
+        archived = [stream]
+        if case.get('l1'):
+            l1cs = ts.view(ts.join(cbid, l1name))
+            l1s = ts.view(l1name)
+            l1cs['chunk_info'] = {'flags': dict(info['flags'])}
+            l1s['stream_type'] = 'sdp.flags'
+            l1s['src_streams'] = [stream]
+            archived.append(l1name)
+        ts['sdp_archived_streams'] = archived
+        return view_l0_capture_stream(ts, cbid, stream)
+
+    def load(self, index):
+        """Returns (dict(vis, weights, flags), preselect_index as katdal holds it) through the reader store."""
+        with dask.config.set(scheduler='sync'):
+            if self.case['path'] == 'source':
+                if self.ts is None:
+                    self.ts = self.telstate()
+                view, cbid, sn = self.ts
+                pre = {k: dec_elt(e) for k, e in index.items()}
+                src = TelstateDataSource(view, cbid, sn, chunk_store=self.reader, preselect=pre or None)
+                vfw = src.data
+                n_ts = len(src.timestamps)
+            else:
+                info = _align_chunk_info({k: dict(v) for k, v in self.info.items()})
+                vfw = ChunkStoreVisFlagsWeights(self.reader, info, preselect_index=tuple(dec_elt(e) for e in index))
+                n_ts = None
+            out = dict(vis=vfw.vis.compute(), weights=vfw.weights.compute(), flags=vfw.flags.compute())
+        return out, vfw.preselect_index, n_ts
+
+
+def blocks_under(store, info, name, index, errors):
+    """Evaluate every block of store.get_dask_array(..., index=index, errors=errors) separately.
+    Returns (list of (block index tuple, object or exception), array) or raises what the call raises."""
+    i = info[name]
+    with dask.config.set(scheduler='sync'):
+        a = store.get_dask_array(store.join(i['prefix'], name), i['chunks'], i['dtype'], index=index, errors=errors)
+        res = []
+        dl = a.to_delayed()
+        for bi in np.ndindex(*dl.shape):
+            try:
+                res.append((tuple(int(x) for x in bi), dl[bi].compute()))
+            except Exception as e:     # noqa: BLE001
+                res.append((tuple(int(x) for x in bi), e))
+    return res, a
+
+
+class ViewHistory(History):
+    """The same interface on a DictChunkStore: the store hands out VIEWS of arrays it owns.  A chunk is in the store iff
+    its array is there and holds the dumps of the chunk; steps are ['arr', array, dumps_held, version] (dumps_held = 0:
+    the array is removed; otherwise a chunk boundary of the array's dump chunking) and ['load', index]."""
+
+    def __init__(self, case, tmp=None):
+        self.case = case
+        self.vals = {}
+        self.info = {}
+        self.ops = []
+        self.held = {}          # array -> (dumps held, version)
+        self.reader = DictChunkStore()
+        self.writer = self.reader
+        l0, l1 = 'cb-sdp-l0', 'cb-sdp-l1-flags'
+        v0 = self.values(0)
+        for name in ARRAYS:
+            prefix = l1 if (name == 'flags' and case.get('l1')) else l0
+            chunks = tuple(tuple(int(x) for x in c) for c in case['chunks'][name])
+            self.info[name] = {'prefix': prefix, 'chunks': chunks,
+                               'dtype': np.lib.format.dtype_to_descr(np.dtype(DTYPES[name])),
+                               'shape': tuple(int(s) for s in v0[name].shape)}
+            self.held[name] = (0, 0)
+            self.set_array(name, case['held0'][name], 0)
+        self.ts = None
+
+    def key(self, name):
+        return self.reader.join(self.info[name]['prefix'], name)
+
+    def set_array(self, name, dumps, ver):
+        chunks = self.info[name]['chunks']
+        old_n, _ = self.held[name]
+        if dumps:
+            self.reader.arrays[self.key(name)] = np.array(self.values(ver)[name][:dumps])     # a private copy the store owns
+        else:
+            self.reader.arrays.pop(self.key(name), None)
+        offs = offsets(chunks[0])
+        for idx in all_chunk_indices(chunks):
+            stop = int(offs[idx[0] + 1])
+            if stop <= dumps:
+                self.ops.append([1, ARRAYS.index(name), self.ident(name, idx), ver])
+            elif stop <= old_n:
+                self.ops.append([0, ARRAYS.index(name), self.ident(name, idx)])
+        self.held[name] = (dumps, ver)
+
+    def unchanged(self):
+        """Names of the arrays whose memory in the store no longer equals what was put there."""
+        bad = []
+        for name in ARRAYS:
+            n, ver = self.held[name]
+            if n and not np.array_equal(self.reader.arrays[self.key(name)], self.values(ver)[name][:n]):
+                bad.append(name)
+        return bad
